@@ -24,7 +24,8 @@ import common
 ID = "C17"
 TABLES = ["c17FactoryAffix", "c17ValidatorAffix", "c17AttributeAffix", "c17ConverterAffix", "c17EqKeyAffix",
           "c17HashKeyAffix", "c17ReprAffix", "c17ReprCallAffix", "c17ReprFixed", "c17EqFixed", "c17HashFixed",
-          "c17InitFixed", "c17EvalMergeOrder", "c17InitMergeOrder"]
+          "c17InitFixed", "c17EvalMergeOrder", "c17InitMergeOrder", "c17EvalExtraBindings", "c17GetattrFixed",
+          "c17GetattrMergeOrder"]
 PARALLEL = True
 BUDGET_S = {"quick": 34, "thorough": 400}
 EXHAUSTIVE = {"quick": False, "thorough": False}
@@ -41,9 +42,11 @@ RULE = (
     "Converter instance / validator / key / repr / hook callable per kind, signature and field-index residue mod 1-3, used "
     "by several differently named fields of the class and -- before the class is defined -- by 0-2 earlier classes under "
     "rotated, reversed or fresh field names, instantiated or not; the class is compared with a twin built from fresh "
-    "objects) x api (attr.s, define, make_class) x poison mode (none, every referenced "
+    "objects) x the class's own name (harness-only: C, every fixed helper / builtin / internal name of the T1 tables, or one "
+    "of the names this very class's generated code loads -- dict and slotted; the neutral twin is called C) x api (attr.s, "
+    "define, make_class) x poison mode (none, every referenced "
     "name, every referenced name attrs injects itself); a catalogue first (every name set x every helper kind x poison "
-    "mode, every class flag x api, the listed hazards), then seeded random fill (quick 1900, thorough 150000 cases, one in "
+    "mode, every class flag x api, the listed hazards), then seeded random fill (quick 1250, thorough 150000 cases, one in "
     "six of kind hist/conc). "
     "every herm class may carry a functools.cached_property and an own or inherited __getattr__ (slotted classes then get "
     "the generated __getattr__ script: its loads, source entry and missing-attribute lookups are observed like the other "
@@ -73,7 +76,8 @@ LEVEL_TEXT = (
     "injects resolves to attrs's object; C17_pinned_merge_order_loses is the decided counterexample for the old merge order), "
     "C17_names_disjoint (for ALL strings: every naming function injective; the six schemes factory/validator/attribute/"
     "converter/key/repr pairwise disjoint; no scheme yields a fixed helper name; eq/hash and repr agree on their names), "
-    "C17_no_helper_clash, C17_getattr_script_hermetic (the cached-property __getattr__ script of slotted classes never sees "
+    "C17_no_helper_clash, C17_no_extra_bindings (no computed-name binding in _eval_snippets, so the class's own name is no "
+    "input), C17_getattr_script_hermetic (the cached-property __getattr__ script of slotted classes never sees "
     "the module namespace; C17_getattr_module_first_loses is the decided counterexample), C17_table_is_intended (for every class, field naming and module namespace every global load of "
     "every generated method finds the object its own script bound -- unconditional), C17_module_irrelevant, "
     "C17_model_meets_spec (hypothesis: not K17c), witness C17_K17c_witness. Part B: C17_unique_entry_concurrent (invariant "
@@ -262,6 +266,17 @@ def rand_share(rng, p=0.4):
     return {"groups": rng.choice([1, 2, 2, 3]), "prior": prior, "use_prior": rng.random() < 0.7}
 
 
+def rand_clsname(rng):
+    """harness-only: what the class is called -- like a fixed helper / builtin / internal name of the generated
+    scripts (T1 tables), like one of the names its own generated code loads, or plainly"""
+    r = rng.random()
+    if r < 0.45:
+        return "C"
+    if r < 0.75:
+        return rng.choice(CLASS_NAMES)
+    return "@load:%d" % rng.randrange(40)
+
+
 def herm_case(rng, names, cls=None, poison=None, api=None, fields=None, share="rand", cfg_extra=None):
     case = {"kind": "herm", "cachedProp": rng.random() < 0.55, "ownGetattr": rng.random() < 0.25,
             "cls": cls or rand_cls(rng),
@@ -270,7 +285,7 @@ def herm_case(rng, names, cls=None, poison=None, api=None, fields=None, share="r
             "cfg": {"api": api or rng.choice(APIS), "order": rng.random() < 0.4,
                     "share": rand_share(rng) if share == "rand" else share,
                     "excRoot": rng.choice(EXC_ROOTS), "frozenVia": rng.choice(["arg", "arg", "base"]),
-                    "baseGetattr": rng.random() < 0.3}}
+                    "baseGetattr": rng.random() < 0.3, "clsName": rand_clsname(rng)}}
     if cfg_extra:
         for k in ("cachedProp", "ownGetattr"):
             if k in cfg_extra:
@@ -319,6 +334,17 @@ def catalogue(rng):
                                                     genInit=not (frozen and api == "attr.s")),
                                 poison="all", api=api, fields=fs, share=None,
                                 cfg_extra={"excRoot": root, "frozenVia": "base" if frozen and api != "make_class" else "arg"})
+    # the class named like every name the scripts load or bind, dict and slotted, on a class that uses every helper
+    for cn in CLASS_NAMES + ["@load:%d" % k for k in range(0, 24)]:
+        for slots in (False, True):
+            for shape in ({"frozen": True, "genHash": True, "cacheHash": True}, {"isExc": True, "genHash": True}):
+                if shape.get("isExc") and not (cn in ("BaseException", "_config", "NOTHING") or cn.startswith("@")):
+                    continue
+                fs = [mk_field("x", validator=True, conv="both", eqKey=True, repr="custom"),
+                      mk_field("y", dflt="factorySelf", hash="f"), mk_field("z", dflt="value", init=False, eq=False)]
+                yield herm_case(rng, None, cls=dict(CLS0, slots=slots, **shape), poison="all",
+                                api=("attr.s", "define", "make_class")[(len(cn) + slots) % 3], fields=fs, share=None,
+                                cfg_extra={"clsName": cn, "cachedProp": slots, "excRoot": "BaseException", "frozenVia": "arg"})
     for api in ("attr.s", "define"):
         for own in (False, True):
             for basega in (False, True):
@@ -504,7 +530,7 @@ def gen_cases(tier, rng):
     yield from fixed
     a, b = gen_herm_random(rng), gen_cache_random(rng)
     # the runner looks at the clock only between batches of 4000 cases: the streams are bounded by count
-    for n in range(1900 if tier == "quick" else 150000):
+    for n in range(1250 if tier == "quick" else 150000):
         yield next(b) if n % 6 == 5 else next(a)
 
 
@@ -515,10 +541,48 @@ def _poisonable(name, load_names):
     return name not in B.KEEP and name != "C"
 
 
+def t1_names():
+    """every fixed helper / builtin / internal name the generated scripts load or bind, from the T1 tables of the
+    current source (plus the conditional ones the model spells out)"""
+    import re
+    import tables_from_source
+    vals, _ = tables_from_source.extract()
+    names = []
+    for k in ("c17ReprFixed", "c17EqFixed", "c17HashFixed", "c17InitFixed", "c17GetattrFixed"):
+        names += re.findall(r'"([^"]+)"', vals.get(k, ""))
+    names += ["_config", "BaseException", "_cached_setattr_get", "super", "hasattr", "NotImplemented", "AttributeError",
+              "_setattr", "_inst_dict", "_cls", "wrapper"]
+    return sorted({n for n in names if n.isidentifier() and not keyword.iskeyword(n)})
+
+
+try:
+    CLASS_NAMES = t1_names()
+except Exception:  # noqa: BLE001  -- the T1 failure is reported by the runner; keep a static list for the generator
+    CLASS_NAMES = ["NOTHING", "attr_dict", "_config", "_compat", "hash", "object", "id", "getattr", "NotImplemented",
+                   "AttributeError", "BaseException", "__import__", "_cached_setattr_get", "super", "hasattr"]
+
+
+def resolve_clsname(case):
+    """the class's name: literal, or "@load:k" = the k-th (mod n) global name the generated code of this very
+    specification loads (field-derived helper names included), found by building it once under the name C"""
+    cn = case.get("cfg", {}).get("clsName") or "C"
+    if not cn.startswith("@load:"):
+        return cn
+    probe = B.Build(case, clsname="C")
+    try:
+        names = sorted({n for _, n in probe.loads()}) if probe.error is None else []
+    finally:
+        probe.close()
+    names = [n for n in names if n.isidentifier() and not keyword.iskeyword(n) and n != "__h__"]
+    return names[int(cn[6:]) % len(names)] if names else "C"
+
+
 def observe_herm(case):
     fields = case["fields"]
     builds = []
     try:
+        clsname = resolve_clsname(case)
+        case = dict(case, cfg=dict(case.get("cfg", {}), clsName=clsname))
         clean = B.Build(case)
         builds.append(clean)
         if clean.error:
@@ -540,7 +604,8 @@ def observe_herm(case):
         fp_clean = clean.fingerprint()
         injected = clean.injected()
         source_ok = CC.source_ok(clean.cls)
-        neutral = B.Build(case, names=["f%d" % i for i in range(len(fields))], aliases=[None] * len(fields))
+        # neutral naming: fields f0, f1, ... and the class called C
+        neutral = B.Build(case, names=["f%d" % i for i in range(len(fields))], aliases=[None] * len(fields), clsname="C")
         builds.append(neutral)
         neutral_ok = neutral.error is None and neutral.fingerprint() == fp_clean
         if poison:
@@ -645,6 +710,7 @@ def dist(case, obs):
             "explicit_alias": any(f.get("explicitAlias") for f in fs),
             "getattr_script": ("cp" + ("+own" if case.get("ownGetattr") else "") + ("+base" if case["cfg"].get("baseGetattr") else ""))
                               if case.get("cachedProp") else "-",
+            "cls_name": (lambda n: "C" if n == "C" else "@load" if n.startswith("@") else "special")(case["cfg"].get("clsName") or "C"),
             "exc_root": case["cfg"].get("excRoot", "-"), "frozen_via": case["cfg"].get("frozenVia", "-"),
             "share": ("g%d:%s" % (case["cfg"]["share"]["groups"], "+".join(case["cfg"]["share"]["prior"]) or "within")
                       if case["cfg"].get("share") else "-"),
@@ -681,6 +747,8 @@ def shrink(case):
         for k in ("cachedProp", "ownGetattr"):
             if case.get(k):
                 yield _copy(dict(case, **{k: False}))
+        if (case["cfg"].get("clsName") or "C").startswith("@"):
+            yield _copy(dict(case, cfg=dict(case["cfg"], clsName=resolve_clsname(case))))
         if case["cfg"].get("baseGetattr"):
             yield _copy(dict(case, cfg=dict(case["cfg"], baseGetattr=False)))
         for i, f in enumerate(fs):
